@@ -42,7 +42,8 @@ Proof.
       rewrite V. rewrite rows_tot_cons.
       apply andb_true_iff in SK. destruct SK as [_ SK]. apply negb_true_iff in SK.
       rewrite (row_any_false_getc _ _ _ SK). lra.
-    + destruct (phase_index p phases) as [i|] eqn:PI; cbn [bind] in H; [|discriminate].
+    + destruct (if same_pkg pk opk then Ok [] else overlap pk opk (nz_keys r)) as [x0|]; cbn [bind] in H; [|discriminate].
+      destruct (phase_index p phases) as [i|] eqn:PI; cbn [bind] in H; [|discriminate].
       pose proof (phase_index_lt _ _ _ PI) as LI.
       destruct (sub_row pk (nth i rows []) opk r) as [r'|] eqn:SR; cbn [bind] in H; [|discriminate].
       destruct (sub_row_value _ _ _ _ _ c SR WP WO CO) as [LR' VR].
